@@ -91,7 +91,29 @@ pub fn run(ctx: &Ctx, rec: &mut Recorder) -> Result<(), String> {
             }
             rec.evaluations += 1;
         }
-        let line = json!({"kind": "tree", "case": c, "ranges": ranges, "got": got});
+        // the tree as it is written into a document (/PageLabels number tree): [page, /S, /P, /St] per entry
+        let written = match crate::mon::guarded(|| tree.to_dict()) {
+            Ok(d) => {
+                let mut v = Vec::new();
+                if let Some(oxidize_pdf::objects::Object::Array(nums)) = d.get("Nums") {
+                    for pair in nums.chunks(2) {
+                        if let [oxidize_pdf::objects::Object::Integer(pg), oxidize_pdf::objects::Object::Dictionary(ld)] = pair {
+                            let sname = match ld.get("S") { Some(oxidize_pdf::objects::Object::Name(n)) => json!(n), _ => json!(null) };
+                            let prefix = match ld.get("P") { Some(oxidize_pdf::objects::Object::String(p)) => json!(p), _ => json!(null) };
+                            let start = match ld.get("St") { Some(oxidize_pdf::objects::Object::Integer(n)) => json!(n), _ => json!(null) };
+                            v.push(json!([pg, sname, prefix, start]));
+                        } else {
+                            v.push(json!({"malformed": format!("{pair:?}")}));
+                        }
+                    }
+                    json!(v)
+                } else {
+                    json!({"no_nums": true})
+                }
+            }
+            Err(p) => json!({"panic": p.site(), "msg": p.message}),
+        };
+        let line = json!({"kind": "tree", "case": c, "ranges": ranges, "got": got, "written": written});
         if c < 3 {
             rec.sample(line.clone());
         }
